@@ -54,7 +54,7 @@ def extra_run(man, tier, seed):
                              'observed': 'seq', 'detail': ''})
     # ---- types the generated runners do not reach (generic structs, nalgebra fields, kernels, processes, statistics built by
     # observe): harness ops serde2.<T> (harness/src/manual_c18.rs)
-    T2 = ['MixtureGaussian', 'MvGaussian', 'InvWishart', 'NormalInvWishart', 'Crp', 'Partition', 'Empirical', 'KsTwoAsymptotic',
+    T2 = ['VonMises', 'Categorical', 'Dirichlet', 'DiscreteUniform', 'MixtureGaussian', 'MvGaussian', 'InvWishart', 'NormalInvWishart', 'Crp', 'Partition', 'Empirical', 'KsTwoAsymptotic',
           'GaussianSuffStat', 'BernoulliSuffStat', 'CategoricalSuffStat', 'PoissonSuffStat', 'BetaSuffStat', 'InvGammaSuffStat',
           'InvGaussianSuffStat', 'UnitPowerLawSuffStat', 'MvGaussianSuffStat', 'RBFKernel', 'ConstantKernel', 'WhiteKernel',
           'RationalQuadratic', 'ExpSineSquaredKernel', 'MaternKernel', 'SEardKernel', 'AddKernel', 'ProductKernel', 'NoiseModel',
@@ -101,7 +101,7 @@ def extra_run(man, tier, seed):
                              'observed': 'query', 'detail': 'rendering of the deserialised object differs'})
         if len(parts) > 4:
             q = parts[4].split()
-            if len(q) == 2 and q[0] != q[1]:
+            if len(q) >= 2 and len(set(q)) != 1:
                 failures.append({'site': fname, 'case': line, 'impl': parts[4], 'expected': 'bit-identical query after the round trip', 'observed': 'query', 'detail': ''})
     # coverage: every type deriving Serialize has a serde fact theorem
     import os, re
